@@ -572,11 +572,16 @@ func c04Violation(c *Ctx, cs *C04Case, f c04Fail, idx int, alone *c04Alone) *Vio
 	deadline := time.Now().Add(25 * time.Second)
 	cur := orig
 	test := func(cand *C04Case) (c04Fail, bool) {
+		if w, _ := c04Build(cand); w == nil {
+			return c04Fail{}, false
+		}
+		// schedule first, baselines afterwards: same order as the run that found it
+		run := c04Exec(cand, nil, policy{"replay", replayChooser(cand.Trace)})
 		al, _ := c04AloneRun(cand)
 		if al == nil {
 			return c04Fail{}, false
 		}
-		fails, _ := c04RunSchedule(nil, cand, al, policy{"replay", replayChooser(cand.Trace)}, c.Sites)
+		fails := c04Judge(cand, al, run, c.Sites)
 		for _, ff := range fails {
 			if ff.sig == f.sig {
 				return ff, true
@@ -707,13 +712,20 @@ func (ck c04) Replay(c *Ctx, v *Violation) *Violation {
 	if err := json.Unmarshal(v.Case, &cs); err != nil {
 		fatal("replay: %v", err)
 	}
-	alone, r0 := c04AloneRun(&cs)
-	if alone == nil {
+	if w, r0 := c04Build(&cs); w == nil {
 		fmt.Printf("replay: setup failed: %s\n", r0.Key())
 		return nil
 	}
-	fails, rr := c04RunSchedule(nil, &cs, alone, policy{"replay", replayChooser(cs.Trace)}, c.Sites)
-	fmt.Printf("replay: %d task(s), schedule of %d segment(s) re-executed as %d segment(s)\n", len(cs.Tasks), len(cs.Trace), len(rr.Trace))
+	// The recorded schedule runs FIRST, in this fresh process, before any operation
+	// has been executed alone (state initialised lazily is then initialised under the
+	// schedule, as in the run that found the violation); the baselines follow.
+	run := c04Exec(&cs, nil, policy{"replay", replayChooser(cs.Trace)})
+	alone, _ := c04AloneRun(&cs)
+	if alone == nil {
+		return nil
+	}
+	fails := c04Judge(&cs, alone, run, c.Sites)
+	fmt.Printf("replay: %d task(s), schedule of %d segment(s) re-executed as %d segment(s)\n", len(cs.Tasks), len(cs.Trace), len(run.rr.Trace))
 	for _, f := range fails {
 		if f.sig == v.Signature {
 			fmt.Printf("replay: %s: %s\n", f.clause, f.detail)
